@@ -230,7 +230,7 @@ CHECKS = {
         "level_note": _TRUST,
     },
     "C05": {
-        "pkgs": ["./pkg/workceptor"],
+        "pkgs": ["./pkg/workceptor", "./pkg/controlsvc"],
         "bounds": "output written in up to 3 chunks of 0..2, 0..2 and 0..1 arbitrary bytes, the file present or not when streaming starts, every start "
                   "offset 0..size+1, the unit recorded finished (succeeded or failed) with a size equal to or larger than what is stored; reader "
                   "polls interleaved with the producer at 5 points; REMOTE MIRROR: finished remote unit with 0..3 arbitrary output bytes, 0..len already "
